@@ -49,7 +49,7 @@ def generate(chk, tier):
     return cases
 
 
-META_KINDS = ["saddle", "tuple22", "pdiag2", "pfull22", "prow2", "pcol2"]
+META_KINDS = ["saddle", "tuple22", "tdiag2", "tdiag3", "pdiag2", "pfull22", "prow2", "pcol2"]
 
 
 def generate_meta(chk):
@@ -61,7 +61,7 @@ def generate_meta(chk):
             f.write('SPECIFICATION Spec\nCONSTANT Kind = "%s"\nINVARIANTS LeavesValid Placement Emit\nCHECK_DEADLOCK FALSE\n' % k)
         jobs.append((name, k))
     cases = []
-    with cf.ThreadPoolExecutor(max_workers=6) as ex:
+    with cf.ThreadPoolExecutor(max_workers=8) as ex:
         futs = [(ex.submit(vlib.tlc, "MetaMatVec", cfg, timeout=1500, xmx="3g"), k, cfg) for cfg, k in jobs]
         for f, k, cfg in futs:
             r = f.result()
